@@ -12,12 +12,19 @@ import (
 
 // ClassEqual reports whether p and q are the same Banderwagon element.
 func ClassEqual(p, q Point) bool {
+	// a triple with X = Y = 0 is not a point: never equal to anything
+	if (p.X.Sign() == 0 && p.Y.Sign() == 0) || (q.X.Sign() == 0 && q.Y.Sign() == 0) {
+		return false
+	}
 	// x1/y1 == x2/y2  (projective scaling cancels)
 	return MulP(p.X, q.Y).Cmp(MulP(q.X, p.Y)) == 0
 }
 
 // ClassEqualAffine is ClassEqual on affine points.
 func ClassEqualAffine(p, q Affine) bool {
+	if (p.X.Sign() == 0 && p.Y.Sign() == 0) || (q.X.Sign() == 0 && q.Y.Sign() == 0) {
+		return false
+	}
 	return MulP(p.X, q.Y).Cmp(MulP(q.X, p.Y)) == 0
 }
 
